@@ -421,6 +421,9 @@ class HTTP(BaseComponent):
             req = res.request
         elif isinstance(fevent.value.parent.event, request):
             req, res = fevent.value.parent.event.args[:2]
+            if req.handled:
+                # _on_request_failure has answered this failure already
+                return
         elif len(fevent.args[2:]) == 4:
             req, res = fevent.args[2:]
         elif len(fevent.args) == 2 and isinstance(fevent.args[0], socket):
